@@ -731,6 +731,7 @@ pub fn run_op(r: &Req, b: &Built) -> Result<String, String> {
             Ok(format!("{} emptyreads={}", out, rdr.empty_buf_calls))
         }
         "meta" => Ok(with_srch(b, &mut |s| s.meta())),
+        "threads" => crate::exec::threads(r, b),
         "selfcheck" => {
             // C20 (exploration half): after a build that did not panic, every sampled
             // pattern embedded in a haystack is found as a genuine occurrence with a
@@ -1181,4 +1182,159 @@ pub fn run_packed(r: &Req) -> Vec<(String, String)> {
         ));
     }
     out
+}
+
+
+// ---------------------------------------------------------------------
+// C17: one searcher shared by several threads (and clones of it), every
+// thread executing a seeded sequence of mixed operations; every result is
+// compared with the result of the same operation executed alone, before and
+// after the concurrent phase.
+fn one_op(s: &dyn Srch, op: usize, hay: &[u8], std: bool) -> String {
+    let input = Input::new(hay);
+    match op % 3 {
+        0 => match s.find(input) {
+            Err(e) => err_name(&e),
+            Ok(m) => fmt_opt(&m),
+        },
+        1 => res_list(s.iter(input)),
+        _ => {
+            if std {
+                let mut st = OverlappingState::start();
+                let mut out = vec![];
+                loop {
+                    match s.ovl(&input, &mut st) {
+                        Err(e) => {
+                            out.push(err_name(&e));
+                            break;
+                        }
+                        Ok(()) => match st.get_match() {
+                            None => break,
+                            Some(m) => out.push(fmt_match(&m)),
+                        },
+                    }
+                }
+                fmt_list(&out)
+            } else {
+                match s.find(input.earliest(true)) {
+                    Err(e) => err_name(&e),
+                    Ok(m) => fmt_opt(&m),
+                }
+            }
+        }
+    }
+}
+
+pub fn threads(r: &Req, b: &Built) -> Result<String, String> {
+    let hays: Vec<Vec<u8>> = r
+        .s("hays")?
+        .split('|')
+        .map(crate::req::unhex)
+        .collect::<Result<_, _>>()?;
+    let nthreads = r.n_or("threads", 8);
+    let reps = r.n_or("reps", 20);
+    let seed = r.n_or("seed", 1) as u64;
+    let std = matches!(match_kind(r)?, MatchKind::Standard);
+    let nops = hays.len() * 3;
+    let run_seq = |s: &dyn Srch| -> Vec<String> {
+        (0..nops).map(|k| one_op(s, k, &hays[k / 3], std)).collect()
+    };
+    // the concurrent phase is generic over the concrete searcher type
+    fn conc<S: Srch + Sync + Clone + Send>(
+        s: &S,
+        nthreads: usize,
+        reps: usize,
+        seed: u64,
+        hays: &[Vec<u8>],
+        std: bool,
+        expect: &[String],
+    ) -> Option<String> {
+        let nops = hays.len() * 3;
+        let barrier = std::sync::Barrier::new(nthreads);
+        let bad = std::sync::Mutex::new(None::<String>);
+        std::thread::scope(|sc| {
+            for t in 0..nthreads {
+                let barrier = &barrier;
+                let bad = &bad;
+                let shared = s;
+                sc.spawn(move || {
+                    // odd threads work on their own clone
+                    let own = shared.clone();
+                    let me: &S = if t % 2 == 1 { &own } else { shared };
+                    let mut x = seed
+                        .wrapping_add(t as u64)
+                        .wrapping_mul(0x9E3779B97F4A7C15)
+                        | 1;
+                    barrier.wait();
+                    for _ in 0..reps {
+                        for _ in 0..nops {
+                            x ^= x << 13;
+                            x ^= x >> 7;
+                            x ^= x << 17;
+                            let k = (x % nops as u64) as usize;
+                            let got = one_op(me, k, &hays[k / 3], std);
+                            if got != expect[k] {
+                                *bad.lock().unwrap() = Some(format!(
+                                    "thread{}-op{}:{}!={}",
+                                    t, k, got, expect[k]
+                                ));
+                                return;
+                            }
+                            if x & 31 == 0 {
+                                std::thread::yield_now();
+                            }
+                        }
+                    }
+                });
+            }
+        });
+        let r = bad.lock().unwrap().clone();
+        r
+    }
+    let before: Vec<String>;
+    let after: Vec<String>;
+    let bad: Option<String>;
+    match b {
+        Built::Nc(a) => {
+            let s = Low(a.clone());
+            before = run_seq(&s);
+            bad = conc(&s, nthreads, reps, seed, &hays, std, &before);
+            after = run_seq(&s);
+        }
+        Built::C(a) => {
+            let s = Low(a.clone());
+            before = run_seq(&s);
+            bad = conc(&s, nthreads, reps, seed, &hays, std, &before);
+            after = run_seq(&s);
+        }
+        Built::Dfa(a) => {
+            let s = Low(a.clone());
+            before = run_seq(&s);
+            bad = conc(&s, nthreads, reps, seed, &hays, std, &before);
+            after = run_seq(&s);
+        }
+        Built::Top(a) => {
+            before = run_seq(a);
+            bad = conc(a, nthreads, reps, seed, &hays, std, &before);
+            after = run_seq(a);
+        }
+    }
+    let finds: Vec<String> = (0..hays.len()).map(|h| before[h * 3].clone()).collect();
+    let conc_s = match bad {
+        Some(d) => format!("diff:{}", d),
+        None => {
+            if before != after {
+                "diff:after-phase".to_string()
+            } else {
+                "ok".to_string()
+            }
+        }
+    };
+    Ok(format!("seq=[{}] conc={}", finds.join(";"), conc_s))
+}
+
+impl<A: Clone> Clone for Low<A> {
+    fn clone(&self) -> Self {
+        Low(self.0.clone())
+    }
 }
